@@ -135,7 +135,9 @@ META = {
          'sequence, i.e. each gets the single batch generator in the state it has without the pool (decidable side condition, with '
          'the MA2-like store sets as positive and the two-independent-simulators case as negative example); the callback never '
          'overwrites a held batch, afterwards holds the consumed batch, and touches only stores present in the result; a context with '
-         'another batch_size or seed is refused, exactly then. Correspondence on every run: (a) symbolic - random graphs with '
+         'another batch_size or seed is refused, exactly then; along a whole pool run (any batch indices, the pool filling and the shared output set growing) '
+         'every batch returns the outputs and call log a fresh executor cache gives and the pool ends the same '
+         '(C05_pool_run_executor_cache_transparent, with the coherence of all loaded nets of a handler derived from the loader model). Correspondence on every run: (a) symbolic - random graphs with '
          'recording operations, 2-3 consecutive BatchHandler runs over one persistent pool (fill, rerun, more batches, remove_store, '
          'replacing a downstream node): per-batch results, call logs and pool content equal the model; results equal the pool-free '
          'meaning; the call multiset equals the operations needed given the held values; (b) numeric - seeded Rejection with '
